@@ -18,6 +18,12 @@
  *       text ADDR                 -> t=HEX back=DUMP  followed by  " | ntop=HEX " PLATFORM(that text)
  *       any FAM PORT, loop FAM PORT -> DUMP | none
  *       sup                       -> flow=0|1 scope=0|1 ipv6=0|1
+ *       NULL pointer arguments:
+ *       fromnative null LEN       -> none                 (native == NULL, stated length LEN)
+ *       new null PORT             -> none                 (address == NULL)
+ *       tonative null DESTLEN     -> fail | …             (addr == NULL, a real destination of DESTLEN bytes)
+ *       tonative nulldest ADDR DESTLEN -> fail | ok-or-write   (dest == NULL)
+ *       getnull                   -> size=0 fam=0 text=NULL port=0 flow=0 scope=0 any=0 loop=0 set=1   (every getter, both setters and free on NULL)
  *       reset                     -> ok
  * DUMP = fam=F port=P flow=FL scope=SC size=N any=A loop=L plat=AL nat=HEX
  *        (getters; `nat` = to_native into a buffer of exactly `size` bytes; `plat` = the platform's own
@@ -245,7 +251,25 @@ int main (int argc, char **argv) {
 			fflush (out);
 			continue;
 		}
-		if (!strcmp (t[0], "fromnative") && n == 2) {
+		if (!strcmp (t[0], "fromnative") && n == 3 && !strcmp (t[1], "null") && parse_u (t[2], 1 << 20, &u1)) {
+			a = p_socket_address_new_from_native (NULL, (psize) u1); dump (a); fprintf (out, "\n"); p_socket_address_free (a);
+		} else if (!strcmp (t[0], "new") && n == 3 && !strcmp (t[1], "null") && parse_u (t[2], 65535, &port)) {
+			a = p_socket_address_new (NULL, (puint16) port); dump (a); fprintf (out, "\n"); p_socket_address_free (a);
+		} else if (!strcmp (t[0], "tonative") && n == 3 && !strcmp (t[1], "null") && parse_u (t[2], 1 << 20, &u1)) {
+			to_native_op (NULL, u1); fprintf (out, "\n");
+		} else if (!strcmp (t[0], "tonative") && n >= 3 && !strcmp (t[1], "nulldest") && (a = mk_addr (t + 2, n - 2, &used, &port), used) && n == used + 3 && parse_u (t[used + 2], 1 << 20, &u1)) {
+			if (a == NULL) fputs ("bad-addr\n", out);
+			else { fprintf (out, p_socket_address_to_native (a, NULL, u1) ? "ok-or-write\n" : "fail\n"); p_socket_address_free (a); }
+		} else if (!strcmp (t[0], "getnull") && n == 1) {
+			pchar *txt = p_socket_address_get_address (NULL);
+			fprintf (out, "size=%lu fam=%d text=", (unsigned long) p_socket_address_get_native_size (NULL), (int) p_socket_address_get_family (NULL));
+			if (txt) hex (txt, strlen (txt)); else fprintf (out, "NULL");
+			fprintf (out, " port=%u flow=%lu scope=%lu any=%d loop=%d", (unsigned) p_socket_address_get_port (NULL),
+				(unsigned long) p_socket_address_get_flow_info (NULL), (unsigned long) p_socket_address_get_scope_id (NULL),
+				p_socket_address_is_any (NULL) ? 1 : 0, p_socket_address_is_loopback (NULL) ? 1 : 0);
+			p_socket_address_set_flow_info (NULL, 7); p_socket_address_set_scope_id (NULL, 9); p_socket_address_free (NULL);
+			fprintf (out, " set=1\n"); p_free (txt);
+		} else if (!strcmp (t[0], "fromnative") && n == 2) {
 			long len; unsigned char *b = unhex (t[1], &len);
 			if (len < 0) fputs ("bad-op\n", out);
 			else { a = p_socket_address_new_from_native (b, (psize) len); dump (a); fprintf (out, "\n"); p_socket_address_free (a); }
